@@ -58,7 +58,7 @@ SPECS = {
                 buffer.bytes() == old(buffer).bytes() + enc_labels(self.labels@.take(it__.index@ as int)),""",
             "entry": "broadcast use lemma_enc_labels_push; assert(self.labels@.take(it__.index@ as int + 1) =~= self.labels@.take(it__.index@ as int).push(*label)); assert(label.wf());"}},
         "anchors": [{"after": "buffer.memoise_name(self);", "proof": "let ghost mid_ptrs__ = Ghost(buffer.name_pointers); proof { assert(self.labels@.take(0) =~= Seq::<Label>::empty()); }"},
-                    {"after": "buffer.write_u16(ptr);", "proof": """proof {
+                    {"after_re": r"buffer\.write_u16\([^;]*\);", "proof": """proof {
     let b0 = old(buffer).bytes(); let b1 = buffer.bytes(); let pos = b0.len() as int;
     assert(is_prefix(b0, b1));
     lemma_codec_table_prefix(*old(buffer), *buffer);
@@ -116,7 +116,7 @@ SPECS = {
         "attrs": "#[verifier::rlimit(600)] // 20 match arms",
         "entry": "broadcast use lemma_be16_div_mod;",
         "anchors": [{"after": "self.name.serialise(buffer, true);", "proof": "let ghost w1__ = *buffer;"},
-                    {"after": "buffer.write_u32(self.ttl);", "proof": "let ghost w_mid__ = *buffer;"},
+                    {"after": "let rdlength_index = buffer.index();", "at": "before", "proof": "let ghost w_mid__ = *buffer;"},
                     {"after": "let rdlength = usize_to_u16(", "at": "before", "proof": """let ghost w_pre__ = *buffer;
 assert(forall|n: DomainName| #[trigger] buffer.name_pointers@.contains_key(n) ==>
     (w_mid__.name_pointers@.contains_key(n) && buffer.name_pointers@[n] == w_mid__.name_pointers@[n]) || ptr_off(buffer.name_pointers@[n]) >= w_mid__.bytes().len() + 2);"""},
@@ -184,7 +184,7 @@ def build(G):
 
 
 CANARIES = [
-    {"name": "pointer_written_low_byte_first", "file": SER, "old": "                buffer.write_u16(ptr);\n                return;", "new": "                buffer.write_u16(ptr.swap_bytes());\n                return;"},
+    {"name": "pointer_written_without_its_tag_bits", "file": SER, "old": "                buffer.write_u16(ptr);\n                return;", "new": "                buffer.write_u16(ptr & 0b0011_1111_1111_1111);\n                return;"},
     {"name": "name_memoised_after_it_is_written", "file": SER, "old": "        buffer.memoise_name(self);\n        for label in &self.labels {\n            buffer.write_u8(label.len());\n            buffer.write_octets(label.octets());\n        }", "new": "        for label in &self.labels {\n            buffer.write_u8(label.len());\n            buffer.write_octets(label.octets());\n        }\n        buffer.memoise_name(self);"},
     {"name": "question_class_written_before_type", "file": SER, "old": "        self.qtype.serialise(buffer);\n        self.qclass.serialise(buffer);", "new": "        self.qclass.serialise(buffer);\n        self.qtype.serialise(buffer);"},
     {"name": "record_ttl_written_as_u16", "file": SER, "old": "        buffer.write_u32(self.ttl);", "new": "        buffer.write_u16(self.ttl as u16);\n        buffer.write_u16(0);"},
